@@ -120,16 +120,19 @@ def tmpl_parts(t):
                "\t\t\tfree calls := calls + (1@MachineInteger);",
                "\t\t\tfree total := total + x * k + calls;",
                "\t\t\ttotal", "\t\t}", "\t}", "}"]
-        stm = ["am%d: MachineInteger -> (%s) := mk%d(%s);" % (k, FT, k, L_(start)),
-               "aa%d: %s := am%d(%s);" % (k, FT, k, L_(k1)), "ab%d: %s := am%d(%s);" % (k, FT, k, L_(k2))]
+        # the closures live in a driver function of their own: function-valued locals of this shape in main make type inference give
+        # up on later statements of main ("cannot yet be completely analyzed", known finding C01-K47)
+        drv = ["ac%d(): () == {" % k, "\tam%d: MachineInteger -> (%s) := mk%d(%s);" % (k, FT, k, L_(start)),
+               "\taa%d: %s := am%d(%s);" % (k, FT, k, L_(k1)), "\tab%d: %s := am%d(%s);" % (k, FT, k, L_(k2))]
         total, calls, exp = start, [0, 0], []
         for i, x in enumerate(xs):
             which = i % 2
             calls[which] += 1
             total = total + x * (k1, k2)[which] + calls[which]
-            stm.append('prMI("a%d ", a%s%d(%s));' % (k, "ab"[which], k, L_(x)))
+            drv.append('\tprMI("a%d ", a%s%d(%s));' % (k, "ab"[which], k, L_(x)))
             exp.append("@ a%d %d" % (k, total))
-        return top, stm, exp
+        drv.append("}")
+        return top + drv, ["ac%d();" % k], exp
     if kind == "finally":
         a, b, c = t[2:5]        # results: soft-caught value, hard-caught value, offset of the normal path
         top = ["define Sf%d: Category == with;" % k, "Sf%dObj: Sf%d == add;" % (k, k), "define Hd%d: Category == with;" % k, "Hd%dObj: Hd%d == add;" % (k, k),
